@@ -234,7 +234,7 @@ PROPS = {
         "technique": "symbolic-expression and loop-shape rules over MIR, kind propagation",
     },
     "C03": {
-        "rules": [r_cand.cand, r_cand.unkfall, r_cand.unkgroup],
+        "rules": [r_cand.cand, r_cand.unkfall, r_cand.unkgroup, r_cand.unkspans],
         "explanation": "CAND: at every processed position both lexicons are searched over the "
                        "same remaining text, every match is inserted and sets has_matched, and "
                        "gen_unk_words is called exactly once with that flag, the word start and "
@@ -380,7 +380,9 @@ PROPS = {
 
 # Rules added after the first full pass: text appended to the entries above.
 _ADDED = {
-    "C03": ("UNKGROUP: path-sensitive pass over (outcome of CharInfo::group(), value of the flag "
+    "C03": ("UNKSPAN: candidate spans as linear relations - the grouped candidate is start..start+run "
+            "and is emitted iff run - limit <= 1 (limit unbounded without max_grouping_len), prefix "
+            "lengths are 1..=min(length, run), the fallback is one character. UNKGROUP: path-sensitive pass over (outcome of CharInfo::group(), value of the flag "
             "the prefix loop tests): the prefix of run length is skipped on every path with "
             "group()=true - also when the over-long run was omitted - and on no path with "
             "group()=false.", "path-sensitive flag/branch correlation"),
